@@ -32,6 +32,11 @@ CONTEXTS = [
     ('variadic', "(define (loop n . rest) (if (= n 0) (car '()) (loop (- n 1) n n)))"),
     ('variadic-0', "(define (loop . args) (if (= (car args) 0) (car '()) (loop (- (car args) 1))))"),
     ('named-let', "(define (loop n) (let lp ((i n)) (if (= i 0) (car '()) (lp (- i 1)))))"),
+    ('eval', "(define (loop n) (if (= n 0) (car '()) (eval (list 'loop (- n 1)))))"),
+    ('call/cc', "(define (loop n) (if (= n 0) (car '()) (call/cc (lambda (k) (loop (- n 1))))))"),
+    ('apply-variadic', "(define (loop . a) (if (= (car a) 0) (car '()) (apply loop (- (car a) 1) '(1 2))))"),
+    ('or-last', "(define (loop n) (or (if (= n 0) (car '()) #f) (loop (- n 1))))"),
+    ('and-last', "(define (loop n) (and (if (= n 0) (car '()) #t) (loop (- n 1))))"),
     ('apply', "(define (loop n) (if (= n 0) (car '()) (apply loop (list (- n 1)))))"),
 
 ]
